@@ -3,11 +3,13 @@
 Interface used by vlib.check: see props/c13.py.
 
 Case JSON (one of):
-  {"kind":"period","lims":[{"period","quota","align"}...],"t0":ms,"ops":[
-       {"op":"take","lim","key","down"} | {"op":"tick","ms"} | {"op":"conc","lim","key","g"}]}
-  {"kind":"token","rate","burst","t0":ms,"ops":[
-       {"op":"allow","n","ctx","skew"} | {"op":"tick","ms"} | {"op":"conc","g","n"} |
-       {"op":"fault","eval","ping","hard"}]}
+  {"kind":"period","lims":[{"period","quota","align","pfx"}...],"t0":ms,"ops":[
+       {"op":"take","lim","key","down"} | {"op":"tick","ms"} | {"op":"conc","lim","key","g"} | {"op":"replace"}]}
+  {"kind":"token","rate","burst","insts":1|2,"t0":ms,"ops":[
+       {"op":"allow","inst","n","ctx","skew"} | {"op":"tick","ms"} | {"op":"conc","inst","g","n"} |
+       {"op":"fault","eval","ping","hard"} | {"op":"replace","eval","ping"}]}
+  replace = the miniredis is closed and a NEW instance (empty data, empty script cache) is started on the
+  same address; limiters with the same pfx / the token instances share their Redis keys.
 """
 from vlib import cZ, cnat, cbool, clist, cpair
 
@@ -44,7 +46,10 @@ RULE = ("period cases: 1-2 limiters (period 1..60 s, quota 0..8, 25% Align()), 1
         "clock steps {0,1,1000/rate+-1,999,1000,1001,(ttl-1)s,ttl s-1ms,ttl s,ttl s+1ms,(ttl+1)s,random} applied to "
         "both clocks, cancelled / expired contexts, G concurrent AllowN, and (22% of token cases) "
         "outage patterns (EVAL and/or PING answered with errors, or listener closed and restarted) with the monitor "
-        "awaited whenever PING is answered; non-trivial = (period) a HitQuota/OverQuota and a restart after expiry "
+        "awaited whenever PING is answered; the server that comes back is in 40% of the recoveries a REPLACEMENT (old miniredis "
+        "closed, a new one started on the same address: empty data and script cache), also swapped in between calls of a "
+        "healthy limiter (15% of the non-outage token cases, 20% of the period cases); 30% of the token cases run two "
+        "TokenLimiter instances on the one key, 18% of the period cases two PeriodLimit instances on the same keys; non-trivial = (period) a HitQuota/OverQuota and a restart after expiry "
         "were observed, (token) a grant and a refusal by Redis were observed; distinct = distinct canonical case JSON")
 TRUSTED = ["miniredis v2.23.1 + gopher-lua stand in for Redis and its Lua 5.1 (INCRBY/EXPIRE/GET/SETEX, ms TTLs, "
            "script atomicity); Lua doubles are exact on the integers involved (< 2^53)",
@@ -58,6 +63,9 @@ ASSUMPTIONS = ["one clock: the caller's now equals the server clock and never go
                "2*burst >= rate, rate >= 1, burst >= 1, n >= 0, period >= 1 (other configurations: model agreement only)",
                "per case at most 4 failing Redis calls so that the store's circuit breaker (lib/breaker, 5 protected "
                "requests) never rejects a healthy call",
+               "a replaced server has lost the counters / the bucket of the old one: the window automaton and the bucket "
+               "restart empty there (spec_ok additionally requires that a decision by Redis leaves level and second in the "
+               "two bucket keys of the server that is listening)",
                "decisions between 'Redis answers again' and the monitor's next ping are exercised only with PING still "
                "failing (deterministic); the 100 ms ping period itself is real time"]
 
@@ -71,9 +79,15 @@ def _period_case(rng, tier):
     for _ in range(nl):
         lims.append({"period": rng.choice([1, 2, 3, 5, 7, 10, 60]), "quota": rng.choice([0, 1, 2, 2, 3, 3, 4, 5, 8]),
                      "align": rng.random() < 0.25})
+    for i, l in enumerate(lims):
+        l["pfx"] = i
+    if nl == 2 and rng.random() < 0.3:
+        lims[1] = dict(lims[0])          # a second limiter instance on the same keys
     nkeys = rng.randint(1, 3)
     ops = []
     downs = 0
+    replaces = 0
+    replacing = rng.random() < 0.2
     nops = rng.randint(8, 30)
     for _ in range(nops):
         r = rng.random()
@@ -87,6 +101,9 @@ def _period_case(rng, tier):
             ms = rng.choice([0, 1, 999, 1000, per - 1000, per - 1, per, per + 1, per + 1000,
                              rng.randint(0, per * 3 // 2), rng.randint(0, 1500)])
             ops.append({"op": "tick", "ms": max(0, ms)})
+        elif replacing and replaces < 2 and r < 0.97:
+            replaces += 1
+            ops.append({"op": "replace"})
         else:
             ops.append({"op": "conc", "lim": lim, "key": rng.randrange(nkeys), "g": rng.randint(2, 8)})
     return {"kind": "period", "lims": lims, "t0": T0_BASE + rng.randrange(10 ** 9), "ops": ops}
@@ -95,7 +112,7 @@ def _period_case(rng, tier):
 def _token_case(rng, tier, outage=None):
     r = rng.random()
     if r < 0.01:
-        return {"kind": "token", "rate": 0, "burst": rng.choice([1, 5]), "t0": T0_BASE + rng.randrange(10 ** 9), "ops": []}
+        return {"kind": "token", "rate": 0, "burst": rng.choice([1, 5]), "insts": 1, "t0": T0_BASE + rng.randrange(10 ** 9), "ops": []}
     rate = rng.choice([1, 1, 2, 3, 4, 5, 5, 7, 8, 10, 20, 25, 50])
     if r < 0.06:
         burst = rng.randint(1, max(1, (rate - 1) // 2)) if rate >= 3 else rng.choice([1, 2, 3])
@@ -107,16 +124,20 @@ def _token_case(rng, tier, outage=None):
         outage = rng.random() < 0.22
     skewed = rng.random() < 0.03 and not outage
     hard = outage and rng.random() < 0.15
+    insts = 2 if rng.random() < 0.3 else 1
+    swaps = (rng.random() < 0.15) and not outage      # replacement of a healthy server between calls
     ops = []
-    alive, eup, pup = True, True, True
-    failures, heals = 0, 0
+    alive, eup, pup = [True] * insts, True, True
+    failures, heals = [0] * insts, 0
+    replaces = 0
     step = max(1, 1000 // rate)
 
     def after():
-        nonlocal alive, heals
-        if not alive and pup:
-            alive = True
-            heals += 1
+        nonlocal heals
+        for i in range(insts):
+            if not alive[i] and pup:
+                alive[i] = True
+                heals += 1
 
     nops = rng.randint(8, 35)
     for _ in range(nops):
@@ -131,10 +152,23 @@ def _token_case(rng, tier, outage=None):
                 mode = rng.choice([(True, True), (True, True), (False, False)])
             else:
                 mode = rng.choice([(True, True), (False, False)])
+            if mode[0] and replaces < 3 and rng.random() < 0.4:
+                # the server that answers again is a fresh instance
+                eup, pup = mode
+                replaces += 1
+                ops.append({"op": "replace", "eval": eup, "ping": pup})
+                after()
+                continue
             eup, pup = mode
             ops.append({"op": "fault", "eval": eup, "ping": pup, "hard": bool(hard and not eup and not pup)})
             after()
             continue
+        if swaps and r < 0.05 and replaces < 2:
+            replaces += 1
+            ops.append({"op": "replace", "eval": True, "ping": True})
+            after()
+            continue
+        inst = rng.randrange(insts)
         if r < 0.62:
             n = rng.choice([0, 1, 1, 1, 1, 2, 3, burst // 2, burst - 1, burst, burst + 1, rate, rng.randint(0, burst + 1)])
             n = max(0, n)
@@ -144,20 +178,20 @@ def _token_case(rng, tier, outage=None):
                 ctx = 1
             elif rc < 0.07:
                 ctx = 2
-            will_fail = alive and ((ctx == 0 and (not eup or script_fails)) or ctx == 2)
-            if will_fail and failures >= 4:
+            will_fail = alive[inst] and ((ctx == 0 and (not eup or script_fails)) or ctx == 2)
+            if will_fail and failures[inst] >= 4:
                 if ctx == 2:
                     ctx = 1
                 else:
                     continue
                 will_fail = False
-            if alive and ctx == 0 and (not eup or script_fails) and pup and heals >= 4:
+            if alive[inst] and ctx == 0 and (not eup or script_fails) and pup and heals >= 4:
                 continue
             if will_fail:
-                failures += 1
+                failures[inst] += 1
                 if ctx == 0:
-                    alive = False
-            op = {"op": "allow", "n": n, "ctx": ctx, "skew": 0}
+                    alive[inst] = False
+            op = {"op": "allow", "inst": inst, "n": n, "ctx": ctx, "skew": 0}
             if skewed and rng.random() < 0.4:
                 op["skew"] = rng.choice([-3000, -1000, -1, 1500, 5000])
             ops.append(op)
@@ -168,11 +202,11 @@ def _token_case(rng, tier, outage=None):
             ops.append({"op": "tick", "ms": max(0, ms)})
             after()
         else:
-            if (alive and (not eup or script_fails)) or (not eup and pup):
+            if (alive[inst] and (not eup or script_fails)) or (not eup and pup):
                 continue
-            ops.append({"op": "conc", "g": rng.randint(2, 8), "n": rng.choice([1, 1, 2])})
+            ops.append({"op": "conc", "inst": inst, "g": rng.randint(2, 8), "n": rng.choice([1, 1, 2])})
             after()
-    return {"kind": "token", "rate": rate, "burst": burst, "t0": T0_BASE + rng.randrange(10 ** 9), "ops": ops}
+    return {"kind": "token", "rate": rate, "burst": burst, "insts": insts, "t0": T0_BASE + rng.randrange(10 ** 9), "ops": ops}
 
 
 def generate(rng, tier, n):
@@ -196,21 +230,28 @@ def search(rng, problems):
                     {"op": "take", "lim": 0, "key": 0, "down": False}, {"op": "tick", "ms": 1}]
             ops += [{"op": "take", "lim": 0, "key": 0, "down": False} for _ in range(quota + 1)]
             ops += [{"op": "tick", "ms": period * 1000 + 1}, {"op": "conc", "lim": 0, "key": 0, "g": quota + 3}]
-            out.append({"kind": "period", "lims": [{"period": period, "quota": quota, "align": align}], "t0": t0, "ops": ops})
+            ops += [{"op": "replace"}] + [{"op": "take", "lim": k % 2, "key": 0, "down": False} for k in range(quota + 2)]
+            lim = {"period": period, "quota": quota, "align": align, "pfx": 0}
+            out.append({"kind": "period", "lims": [lim, dict(lim)], "t0": t0, "ops": ops})
     for rate, burst in [(1, 1), (2, 1), (1, 3), (5, 10), (10, 5), (3, 2), (4, 2), (7, 5)]:
         ttl = 2 * burst // rate
-        al = lambda n: {"op": "allow", "n": n, "ctx": 0, "skew": 0}
+        al = lambda n, inst=0: {"op": "allow", "inst": inst, "n": n, "ctx": 0, "skew": 0}
         tk = lambda ms: {"op": "tick", "ms": ms}
         ops = [al(burst), al(1), tk(1000), al(rate), al(1), al(0), tk(ttl * 1000 - 1), al(burst), al(1), tk(1), al(1),
                tk(ttl * 1000), al(burst), al(1), tk((ttl + 1) * 1000), al(burst + 1), al(burst), tk(999), al(1), tk(1), al(1)]
         for k in range(burst):
             ops.append(al(1))
         ops += [al(1), tk(1000)] + [al(1) for _ in range(rate + 1)]
-        out.append({"kind": "token", "rate": rate, "burst": burst, "t0": t0, "ops": ops})
+        out.append({"kind": "token", "rate": rate, "burst": burst, "insts": 1, "t0": t0, "ops": ops})
         fl = lambda e, p: {"op": "fault", "eval": e, "ping": p, "hard": False}
         ops2 = [al(1), fl(False, False)] + [al(1) for _ in range(burst + 1)] + [tk(1000)] + [al(1) for _ in range(rate + 1)]
         ops2 += [fl(True, False), al(1), fl(True, True), al(burst), al(burst)]
-        out.append({"kind": "token", "rate": rate, "burst": burst, "t0": t0, "ops": ops2})
+        out.append({"kind": "token", "rate": rate, "burst": burst, "insts": 1, "t0": t0, "ops": ops2})
+        # the server that comes back is a fresh instance; two limiter instances on the one key
+        rp = lambda e, p: {"op": "replace", "eval": e, "ping": p}
+        ops3 = [al(burst), al(1, 1), fl(False, False), al(1), al(1, 1), rp(True, False), al(1), rp(True, True), al(burst), al(1, 1),
+                tk(1000), al(1, 1), rp(True, True), al(burst, 1), al(1), fl(False, False), al(1, 1), rp(True, True), al(1, 1), al(burst)]
+        out.append({"kind": "token", "rate": rate, "burst": burst, "insts": 2, "t0": t0, "ops": ops3})
     return out
 
 
@@ -220,7 +261,8 @@ def _ent(e):
 
 
 def _snap(o):
-    return "(mkSnap %s %s %s %s)" % (cbool(o["alive"] == 1), cbool(o["mon"]), _ent(o["tok"]), _ent(o["ts"]))
+    return "(mkSnap %s %s %s %s %s %s)" % (cbool(o["alive"][0] == 1), cbool(o["mon"][0]), cbool(o["alive"][1] == 1),
+                                           cbool(o["mon"][1]), _ent(o["tok"]), _ent(o["ts"]))
 
 
 def _window(lim, o):
@@ -236,11 +278,13 @@ def encode(case, obs):
     if "ops" not in obs and "new_panic" not in obs:
         raise ValueError("driver error: %r" % (obs,))
     if case["kind"] == "period":
-        lims = [cpair(cZ(l["period"]), cZ(l["quota"]), cbool(l["align"])) for l in case["lims"]]
+        lims = [cpair(cZ(l["period"]), cZ(l["quota"]), cbool(l["align"]), cnat(l.get("pfx", i))) for i, l in enumerate(case["lims"])]
         ops = []
         for op, o in zip(case["ops"], obs["ops"]):
             if op["op"] == "tick":
                 ops.append("XPTick %s" % cZ(op["ms"]))
+            elif op["op"] == "replace":
+                ops.append("XPReplace")
             elif op["op"] == "take":
                 ops.append("XPTake %s %s %s %s %s %s %s %s" % (
                     cnat(op["lim"]), cnat(op["key"]), cbool(op.get("down", False)), cZ(_window(case["lims"][op["lim"]], o)),
@@ -257,15 +301,18 @@ def encode(case, obs):
         if op["op"] == "tick":
             ops.append("XTTick %s %s" % (cZ(op["ms"]), _snap(o)))
         elif op["op"] == "allow":
-            ops.append("XTAllow %s %s %s %s %s" % (cZ(op["n"]), cnat(op.get("ctx", 0)), cZ(op.get("skew", 0)), cbool(o["ok"]), _snap(o)))
+            ops.append("XTAllow %s %s %s %s %s %s" % (cnat(op.get("inst", 0)), cZ(op["n"]), cnat(op.get("ctx", 0)),
+                                                      cZ(op.get("skew", 0)), cbool(o["ok"]), _snap(o)))
         elif op["op"] == "conc":
-            ops.append("XTConc %s %s %s %s" % (cnat(op["g"]), cZ(op["n"]), cZ(o["granted"]), _snap(o)))
+            ops.append("XTConc %s %s %s %s %s" % (cnat(op.get("inst", 0)), cnat(op["g"]), cZ(op["n"]), cZ(o["granted"]), _snap(o)))
+        elif op["op"] == "replace":
+            ops.append("XTReplace %s %s %s" % (cbool(op["eval"]), cbool(op["ping"]), _snap(o)))
         else:
             ops.append("XTFault %s %s %s %s" % (cbool(op["eval"]), cbool(op["ping"]), cbool(op.get("hard", False)), _snap(o)))
     healed = obs.get("healed", True)
     # a monitor that never came back is reported as an impossible snapshot so that model_ok fails
     if not healed:
-        ops.append("XTTick (0)%Z (mkSnap false true (0, 0, 0)%Z (0, 0, 0)%Z)")
+        ops.append("XTTick (0)%Z (mkSnap false true false true (0, 0, 0)%Z (0, 0, 0)%Z)")
     return "CToken %s %s %s false %s" % (cZ(case["rate"]), cZ(case["burst"]), cZ(case["t0"]), clist(ops))
 
 
@@ -287,7 +334,8 @@ def nontrivial(case, obs):
         return hit and restart
     grant = deny = False
     for op, o in zip(case["ops"], obs["ops"]):
-        if op["op"] == "allow" and op.get("ctx", 0) == 0 and o["alive"] == 1 and not o["mon"]:
+        i = op.get("inst", 0)
+        if op["op"] == "allow" and op.get("ctx", 0) == 0 and o["alive"][i] == 1 and not o["mon"][i]:
             if o["ok"]:
                 grant = True
             else:
@@ -303,6 +351,8 @@ def bucket(case, obs):
     if case["kind"] == "period":
         if any(l["align"] for l in case["lims"]):
             out.append("period:align")
+        if len(case["lims"]) == 2 and case["lims"][0].get("pfx") == case["lims"][1].get("pfx"):
+            out.append("period:two-instances-one-key")
         for op, o in zip(case["ops"], obs["ops"]):
             out.append("pop:" + op["op"])
             if op["op"] == "take":
@@ -315,14 +365,24 @@ def bucket(case, obs):
     if any(op.get("skew", 0) for op in case["ops"]):
         out.append("hyp:skew")
     prev_present = False
+    replaced = False
+    if case.get("insts", 1) == 2:
+        out.append("token:two-instances")
     for op, o in zip(case["ops"], obs["ops"]):
         out.append("top:" + op["op"])
         if op["op"] == "allow":
             if op.get("ctx", 0):
                 out.append("allow:ctx-done")
-            elif o["alive"] == 0 or o["mon"]:
+            elif o["alive"][op.get("inst", 0)] == 0 or o["mon"][op.get("inst", 0)]:
                 out.append("allow:rescue")
             out.append("allow:granted" if o["ok"] else "allow:refused")
+        if op["op"] == "replace":
+            out.append("replace:%s%s" % ("E" if op["eval"] else "e", "P" if op["ping"] else "p"))
+            replaced = True
+        if op["op"] == "allow" and replaced and op.get("ctx", 0) == 0 and o["alive"][op.get("inst", 0)] == 1 \
+                and not o["mon"][op.get("inst", 0)] and o["tok"][0] == 1:
+            out.append("replace:decided-by-new-server")
+            replaced = False
         if op["op"] == "fault":
             out.append("fault:%s%s%s" % ("E" if op["eval"] else "e", "P" if op["ping"] else "p", "-hard" if op.get("hard") else ""))
         if op["op"] == "tick" and prev_present and o["tok"][0] == 0:
